@@ -36,10 +36,10 @@ ASSUMPTIONS = [
     "host UTC offset is a whole number of minutes (minute boundaries of local time and UTC coincide)",
     "wake-up lateness of asyncio.sleep <= 200 ms, listing all sources takes <= 2 s per poll, computation between suspensions takes no time",
     "a source stops listing a one-shot entry once it has been sent (LabelScheduleSource.post_send behaviour); cron matching is a function of the wall-clock minute",
-    "TaskiqScheduler.on_ready is replaced by a recording stub (its own behaviour is C16)",
+    "in the symbolic-time harness TaskiqScheduler.on_ready is a recording stub; a second harness composes the loop with the real on_ready / AsyncKicker at concrete instants",
 ]
 TRUSTED = ["z3 5.1 (UFLIA)", "vt.dtmodel", "event simulator in this file", "vt.sym explorer"]
-REQUIRED_COVERS = ["slow_send", "cron_sent", "cron_not_sent", "one_shot_sent_with_delay", "one_shot_sent_immediately", "one_shot_left_for_later",
+REQUIRED_COVERS = ["real_scheduler", "real_one_shot_due", "slow_send", "cron_sent", "cron_not_sent", "one_shot_sent_with_delay", "one_shot_sent_immediately", "one_shot_left_for_later",
                    "source_failed", "send_failed", "three_polls"]
 
 logging.disable(logging.CRITICAL)
@@ -57,9 +57,12 @@ def bounds(tier: str) -> Dict[str, Any]:
             "start, T": "unbounded Int us", "lateness": f"<= {LAT} us", "listing": f"<= {LIST_MAX} us"}
 
 
-def cases(tier: str) -> List[Any]:
+def cases(tier: str, hname: str = "harness") -> List[Any]:
+    if hname == "real_scheduler":
+        return [{"start_s": st, "kick_s": k} for st in (0.4, 30.5, 58.7) for k in (0.0, 1.5, 4.0)]
     out = []
-    plan = {"cron": 3, "oneshot": 3, "both": 2, "two_sources": 2} if tier == "quick" else {"cron": 5, "oneshot": 4, "both": 3, "two_sources": 3}
+    plan = ({"cron": 3, "oneshot": 3, "both": 2, "two_sources": 2, "cron_td": 2} if tier == "quick"
+            else {"cron": 5, "oneshot": 4, "both": 3, "two_sources": 3, "cron_td": 3})
     for sched, polls in plan.items():
         for fail in ("none", "source", "send"):
             out.append({"polls": polls, "sched": sched, "fail": fail})
@@ -220,8 +223,9 @@ def harness(c: sym.Ctx, case: Dict[str, Any]) -> None:
     fail_source_at = c.choose(polls, "fail_source_at") if case["fail"] == "source" else -1
     fail_send_no = c.choose(3, "fail_send_no") if case["fail"] == "send" else -1
     send_no = {"n": 0}
-    has_cron = case["sched"] in ("cron", "both", "two_sources")
+    has_cron = case["sched"] in ("cron", "both", "two_sources", "cron_td")
     has_one = case["sched"] in ("oneshot", "both")
+    cron_off = dtmodel.TD(_us=c.int("cronoff")) if case["sched"] == "cron_td" else None
 
     class Source:
         def __init__(self, name: str) -> None:
@@ -244,7 +248,7 @@ def harness(c: sym.Ctx, case: Dict[str, Any]) -> None:
             out = []
             if self.name == "s0":
                 if has_cron:
-                    out.append(types.SimpleNamespace(cron="EXPR0", cron_offset=None, time=None, task_name="c0", schedule_id="cron0"))
+                    out.append(types.SimpleNamespace(cron="EXPR0", cron_offset=cron_off, time=None, task_name="c0", schedule_id="cron0"))
                 if has_one and sent_oneshot["n"] == 0:
                     out.append(types.SimpleNamespace(cron=None, cron_offset=None, time=DT(T, 0, True, dtmodel.UTC), task_name="o", schedule_id="one"))
             else:
@@ -277,10 +281,10 @@ def harness(c: sym.Ctx, case: Dict[str, Any]) -> None:
         return
     for e in ev:
         c.event(*e)
-    check(c, case, ev, run.is_now, start, T, poll_no["n"], sim)
+    check(c, case, ev, run.is_now, start, T, poll_no["n"], sim, cron_off)
 
 
-def check(c: sym.Ctx, case: Dict[str, Any], ev: List[Any], is_now: Any, start: Any, T: Any, npolls: int, sim: Any) -> None:
+def check(c: sym.Ctx, case: Dict[str, Any], ev: List[Any], is_now: Any, start: Any, T: Any, npolls: int, sim: Any, cron_off: Any = None) -> None:
     polls = case["polls"]
     if case.get("slow_send"):
         c.cover("slow_send")
@@ -316,7 +320,9 @@ def check(c: sym.Ctx, case: Dict[str, Any], ev: List[Any], is_now: Any, start: A
             pk = [x[3] for x in ev if x[0] == "poll" and x[1] == "s0" and x[2] == k][0]
             sends = [x for x in ev if x[0] == "send" and x[1] == sid and x[3] == k]
             at = dt.us  # UTC instant the code evaluated the expression at
-            c.check(at == q[k], "cron_evaluated_at_the_poll", sid=sid, poll=k)
+            shift = cron_off.us if (cron_off is not None and sid == "cron0") else 0
+            c.check(at == q[k] + shift, "cron_evaluated_at_the_poll", sid=sid, poll=k)
+            c.check(dt.wall() == q[k] + shift, "cron_evaluated_on_the_clock_shifted_by_its_offset", sid=sid, poll=k)
             want = is_now.match(expr, dt.wall() // MIN)
             n = len(sends)
             c.check(n <= 1, "cron_sent_at_most_once_per_poll", sid=sid, poll=k, n=n)
@@ -372,6 +378,10 @@ def signature(f: Dict[str, Any]) -> str:
 def confirm(f: Dict[str, Any]) -> Any:
     """Concrete replay on the real module.  The solver's model may sit exactly on a tie between two timers (same wake-up
     instant), which the real loop breaks FIFO; nearby assignments (send durations / lateness nudged by up to 1 ms) are tried too."""
+    if f.get("harness") == "real_scheduler":
+        rep = sym.replay(real_scheduler, f["case"], f["assignment"], f["choices"])
+        got = [signature(g) for g in rep["failures"]]
+        return (signature(f) in got), {"reproduced" if signature(f) in got else "got": got, "events": rep["events"][-30:]}
     base = dict(f["assignment"])
     variants = [base]
     for bump in (1, 1000):
@@ -445,11 +455,17 @@ def concrete(c: sym.Ctx, case: Dict[str, Any]) -> None:
 
     import taskiq.cli.scheduler.run as run
 
-    has_cron = case["sched"] in ("cron", "both", "two_sources")
+    has_cron = case["sched"] in ("cron", "both", "two_sources", "cron_td")
     has_one = case["sched"] in ("oneshot", "both")
     state = {"polls": 0, "sent_one": 0, "sends": 0, "lists": 0}
-    # cron expression that matches every minute / no minute is enough for the replay of one-shot findings
+    # cron expression that matches every minute is enough for the replay of one-shot / loop findings; with an offset the
+    # expression pins day and month of the shifted clock at the first poll
     cron_expr = "* * * * *"
+    cron_td = None
+    if case["sched"] == "cron_td":
+        cron_td = real_dt.timedelta(microseconds=int(a.get("cronoff", 0)))
+        w0 = _sched.EPOCH_UTC + real_dt.timedelta(microseconds=start + (lists[0] if lists else 0)) + cron_td
+        cron_expr = f"* * {w0.day} {w0.month} *"
 
     class Source:
         def __init__(self, name: str) -> None:
@@ -468,17 +484,18 @@ def concrete(c: sym.Ctx, case: Dict[str, Any]) -> None:
                 await real_sleep(d / US)
             ev.append(("poll", self.name, k, t0))
             if self.name == "s0" and k == fail_source_at:
+                ev.append(("source_failed", self.name, k, now_us()))
                 raise RuntimeError("source down")
             out = []
             if self.name == "s0":
                 if has_cron:
-                    out.append(ScheduledTask(task_name="c0", labels={}, args=[], kwargs={}, cron=cron_expr, schedule_id="cron0"))
+                    out.append(ScheduledTask(task_name="c0", labels={}, args=[], kwargs={}, cron=cron_expr, schedule_id="cron0", cron_offset=cron_td))
                 if has_one and state["sent_one"] == 0:
                     out.append(ScheduledTask(task_name="o", labels={}, args=[], kwargs={}, schedule_id="one",
                                              time=_sched.EPOCH_UTC + real_dt.timedelta(microseconds=T)))
             else:
                 out.append(ScheduledTask(task_name="c1", labels={}, args=[], kwargs={}, cron=cron_expr, schedule_id="cron1"))
-            ev.append(("listed", self.name, k, [s.schedule_id for s in out]))
+            ev.append(("listed", self.name, k, [s.schedule_id for s in out], now_us()))
             return out
 
     sources = [Source("s0")] + ([Source("s1")] if case["sched"] == "two_sources" else [])
@@ -532,15 +549,132 @@ def concrete(c: sym.Ctx, case: Dict[str, Any]) -> None:
         polls_of = sorted(s[3] for s in one)
         c.check(False, "one_shot_sent_exactly_once", sends=len(one), polls=polls_of, consecutive=polls_of == list(range(polls_of[0], polls_of[0] + len(polls_of))))
     p = [e[3] for e in ev if e[0] == "poll" and e[1] == "s0"]
+    qc = {e[2]: (e[4] if e[0] == "listed" else e[3]) for e in ev if e[0] in ("listed", "source_failed") and e[1] == "s0"}
     c.check(len(p) == polls, "loop_keeps_polling", polls=len(p), want=polls)
     for k in range(1, len(p)):
-        boundary = p[k - 1] - (p[k - 1] % MIN) + MIN
-        c.check(boundary <= p[k] <= boundary + LAT + LIST_MAX + 40 * EPS, "poll_at_next_minute_boundary", k=k, p=p)
+        if k - 1 not in qc:
+            continue
+        boundary = qc[k - 1] - (qc[k - 1] % MIN) + MIN
+        c.check(boundary <= p[k] <= boundary + LAT + 40 * EPS, "poll_at_next_minute_boundary", k=k, p=p)
     for sid in ("cron0", "cron1"):
         for e in [x for x in ev if x[0] == "listed" and sid in x[3]]:
             n = sum(1 for x in ev if x[0] == "send" and x[1] == sid and x[3] == e[2])
             c.check(n <= 1, "cron_sent_at_most_once_per_poll", sid=sid, poll=e[2], n=n)
+            if cron_td is not None and sid == "cron0":
+                pk = [x[3] for x in ev if x[0] == "poll" and x[1] == "s0" and x[2] == e[2]][0]
+                wk = _sched.EPOCH_UTC + real_dt.timedelta(microseconds=pk) + cron_td
+                if (wk.day, wk.month) != (w0.day, w0.month) or ((wk + real_dt.timedelta(seconds=3)).day != wk.day):
+                    continue  # the shifted clock left the pinned day
+                c.check(n == 1, "cron_evaluated_on_the_clock_shifted_by_its_offset", sid=sid, poll=e[2])
+                continue
             c.check(n == 1, "cron_sent_in_every_matching_minute", sid=sid, poll=e[2])
+
+
+def real_scheduler(c: sym.Ctx, case: Dict[str, Any]) -> None:
+    """Composition with the real TaskiqScheduler.on_ready / AsyncKicker on real asyncio timers (virtual clock, concrete instants):
+    a slow send of one schedule must not delay or drop the others."""
+    import asyncio
+    import datetime as real_dt
+
+    from taskiq import AsyncBroker
+    from taskiq.abc.schedule_source import ScheduleSource
+    from taskiq.scheduler.scheduled_task import ScheduledTask
+    from taskiq.scheduler.scheduler import TaskiqScheduler
+
+    from vt.props._recv import VLoop
+
+    import taskiq.cli.scheduler.run as run
+
+    c.cover("real_scheduler")
+    base = 1_900_000_000 * US - (1_900_000_000 * US) % MIN  # a minute boundary
+    start = base + int(case["start_s"] * US)
+    t_off = c.choose([2 * US, 20 * US + 250_000, 61 * US], "one_shot_after_boundary")
+    T = base + MIN + t_off
+    slow = c.choose(["cron0", "one", "none"], "slow_schedule")
+    polls = 3
+    loop = VLoop()
+    loop.begin()
+    ev: List[Any] = []
+
+    def now_us() -> int:
+        return start + int(round(loop.time() * US))
+
+    class Frozen(real_dt.datetime):
+        @classmethod
+        def now(cls, tz: Any = None) -> Any:  # type: ignore[override]
+            utc = _sched.EPOCH_UTC + real_dt.timedelta(microseconds=now_us())
+            return utc.astimezone(tz) if tz is not None else utc.replace(tzinfo=None)
+
+    class Broker(AsyncBroker):
+        async def kick(self, message: Any) -> None:
+            sid = message.labels.get("schedule_id")
+            ev.append(("kick_begin", sid, now_us()))
+            if sid == slow and case["kick_s"]:
+                await asyncio.sleep(case["kick_s"])
+            ev.append(("kick_end", sid, now_us()))
+
+        async def listen(self) -> Any:  # pragma: no cover
+            yield b""
+
+    state = {"polls": 0, "sent_one": False}
+
+    class Src(ScheduleSource):
+        def __init__(self, name: str) -> None:
+            self.name = name
+
+        async def get_schedules(self) -> List[Any]:
+            if self.name == "s0":
+                if state["polls"] >= polls:
+                    raise asyncio.CancelledError()
+                state["polls"] += 1
+                ev.append(("poll", state["polls"] - 1, now_us()))
+                out = [ScheduledTask(task_name="c0", labels={}, args=[], kwargs={}, cron="* * * * *", schedule_id="cron0")]
+                if not state["sent_one"]:
+                    out.append(ScheduledTask(task_name="o", labels={}, args=[], kwargs={}, schedule_id="one",
+                                             time=_sched.EPOCH_UTC + real_dt.timedelta(microseconds=T)))
+                return out
+            return [ScheduledTask(task_name="c1", labels={}, args=[], kwargs={}, cron="* * * * *", schedule_id="cron1")]
+
+        def post_send(self, task: Any) -> None:
+            if task.schedule_id == "one":
+                state["sent_one"] = True
+
+    broker = Broker()
+    sched = TaskiqScheduler(broker, [Src("s0"), Src("s1")])
+    old_dt = run.datetime
+    run.datetime = Frozen  # type: ignore[misc]
+    try:
+        main = loop.create_task(run.run_scheduler_loop(sched))
+        for _ in range(3000):
+            loop.settle()
+            if main.done() or loop.next_timer() is None:
+                break
+            loop.tick()
+    finally:
+        run.datetime = old_dt  # type: ignore[misc]
+        loop.shutdown()
+    for e in ev:
+        c.event(*e)
+    p = [e[2] for e in ev if e[0] == "poll"]
+    c.check(len(p) == polls, "loop_keeps_polling", polls=len(p))
+    for k in range(1, len(p)):
+        c.check(p[k] // MIN == p[k - 1] // MIN + 1 and p[k] % MIN < US, "poll_at_next_minute_boundary", p=p)
+    for sid in ("cron0", "cron1"):
+        mins = [e[2] // MIN for e in ev if e[0] == "kick_begin" and e[1] == sid]
+        want = [x // MIN for x in p]
+        c.check(mins == want, "cron_sent_once_in_every_polled_minute", sid=sid, minutes=mins, polled=want, slow=slow, kick_s=case["kick_s"])
+    one = [e[2] for e in ev if e[0] == "kick_begin" and e[1] == "one"]
+    covered = p and T + 2 * US < p[-1] + MIN and T >= p[0]
+    if covered:
+        c.cover("real_one_shot_due")
+        c.check(len(one) >= 1 and T <= one[0] < T + US + 50_000, "one_shot_sent_within_one_second_after_its_time", sends=one, T=T, slow=slow,
+                kick_s=case["kick_s"])
+        boundary = T - T % MIN
+        if not (T - boundary <= US + 1):  # away from the recorded known finding (T within 1 s after a boundary)
+            c.check(len(one) == 1, "one_shot_sent_exactly_once", sends=len(one), polls="real-scheduler", consecutive="n/a")
+
+
+HARNESSES = {"harness": harness, "real_scheduler": real_scheduler}
 
 
 def budget(tier: str) -> Dict[str, Any]:
